@@ -298,8 +298,3 @@ def run_load(bs, cs=0, clip=False, debug=False):
         return [0] + file_ints(mf), mf, None
     except Exception as e:  # noqa: BLE001
         return [-1, 0], None, e
-
-
-def charset_state():
-    import mido.midifiles.meta as meta
-    return meta._charset
